@@ -8,7 +8,8 @@
 #include <chrono>
 using namespace v;
 
-struct KeyUse { const KeySpec *ks; const jwk_item_t *priv, *pub; jwt_alg_t alg; };
+struct KeyUse { const KeySpec *ks; const jwk_item_t *priv, *pub; jwt_alg_t alg; std::string kid_priv, kid_pub; };
+static jwk_set_t *G_SET = nullptr;
 static std::vector<KeyUse> KU;
 static std::vector<std::string> PRETOK_VALID, PRETOK_BAD, PRETOK_EXPIRED;   // per key, made before threads start
 
@@ -33,12 +34,15 @@ static std::vector<std::string> run_script(const Script &s, bool concurrent) {
   for (const Op &o : s.ops) {
     const KeyUse &k = KU[o.key];
     if (concurrent) { int others = g_in_call[o.key].fetch_add(1); if (others > 0) g_overlaps++; g_calls++; }
+    // half of the calls find their key in the shared keyring by kid (a read-only operation on the shared set)
+    const jwk_item_t *kpriv = k.priv, *kpub = k.pub;
+    if (o.n & 1) { kpriv = jwks_find_bykid(G_SET, k.kid_priv.c_str()); kpub = jwks_find_bykid(G_SET, k.kid_pub.c_str()); (void)jwks_item_count(G_SET); (void)jwks_item_get(G_SET, (size_t)o.key); }
     if (o.kind == OP_GEN) {
-      jwt_builder_setkey(b, k.alg, k.priv);
+      jwt_builder_setkey(b, k.alg, kpriv);
       jwt_value_t v = val_int("n", o.n, 1); jwt_builder_claim_set(b, &v); jwt_builder_time_offset(b, JWT_CLAIM_EXP, 600);
       char *t = jwt_builder_generate(b); tr.push_back("gen:" + norm(*k.ks, k.alg, t)); free(t);
     } else {
-      jwt_checker_setkey(c, k.alg, k.pub);
+      jwt_checker_setkey(c, k.alg, kpub);
       const std::string &tok = o.kind == OP_VERIFY_VALID ? PRETOK_VALID[o.key] : o.kind == OP_VERIFY_BAD ? PRETOK_BAD[o.key] : PRETOK_EXPIRED[o.key];
       int r = jwt_checker_verify(c, tok.c_str()); tr.push_back(std::string("verify") + std::to_string(o.kind) + ":" + std::to_string(r ? 1 : 0) + ":" + (jwt_checker_error(c) ? "flag" : "noflag"));
     }
@@ -63,7 +67,8 @@ int main(int argc, char **argv) {
   doc += "]}";
   jwk_set_t *set = jwks_create(doc.c_str());
   if (!set || jwks_error_any(set)) { fprintf(stderr, "keyring import failed\n"); return 2; }
-  for (size_t i = 0; i < kds.size(); i++) { const KeySpec &ks = pool.get(kds[i].name); KU.push_back({&ks, jwks_find_bykid(set, ("priv" + std::to_string(i)).c_str()), ks.kind == K_OCT ? jwks_find_bykid(set, ("priv" + std::to_string(i)).c_str()) : jwks_find_bykid(set, ("pub" + std::to_string(i)).c_str()), kds[i].alg});
+  G_SET = set;
+  for (size_t i = 0; i < kds.size(); i++) { const KeySpec &ks = pool.get(kds[i].name); KU.push_back({&ks, jwks_find_bykid(set, ("priv" + std::to_string(i)).c_str()), ks.kind == K_OCT ? jwks_find_bykid(set, ("priv" + std::to_string(i)).c_str()) : jwks_find_bykid(set, ("pub" + std::to_string(i)).c_str()), kds[i].alg, "priv" + std::to_string(i), (ks.kind == K_OCT ? "priv" : "pub") + std::to_string(i)});
     std::string h = std::string("{\"alg\":\"") + jwt_alg_str(kds[i].alg) + "\",\"typ\":\"JWT\"}";
     std::string good = ref_token(ks, kds[i].alg, h, "{\"sub\":\"t\",\"exp\":1800000000}"); PRETOK_VALID.push_back(good);
     std::string bad = good; bad[bad.size() - 3] = bad[bad.size() - 3] == 'A' ? 'B' : 'A'; PRETOK_BAD.push_back(bad);
